@@ -4952,34 +4952,4 @@ Section pass2.
     destruct (height (nd s n) =? unset); [injection H1 as <-; apply soft_refl|apply (soft_heapAddIfNotPresent _ _ _ H1)].
   Qed.
 
-  Lemma stabilize_spec p cancelled s s' e :
-    Inv s -> Q s -> plan_ok s p = true -> stabilize p cancelled s = Ok (s', e) ->
-    rejected_err e \/ Inv s'.
-  Proof.
-    intros HI Hq Hp H. unfold stabilize in H.
-    rewrite (q_status s (inv_quiet s HI)) in H. simpl in H.
-    set (s1 := emit EvPassStart (s <| status := 1 |>)) in *.
-    assert (P1 : PInv s1).
-    { pose proof (Inv_TInv s HI) as T.
-      destruct HI as [Iids Ibinds Ikinds Iscopes Iscoping Ivalid Iedges Izero Inec Ipar Iheight Iheap
-                      Icount Iobs Iquiet Ishape Istamps Ilife].
-      assert (S0 : same_struct s s1) by (apply same_struct_nodes; reflexivity).
-      destruct Ivalid as [V1 V2 V3 V4]. destruct Ilife as [L1 L2 L3].
-      destruct Iquiet as [q_anum0 q_invq0 q_status0 q_setDuring0 q_setRemoved0 q_handlers0 q_force0 q_hadj0 q_by0].
-      assert (Hnd : forall m, nd s1 m = nd s m) by reflexivity.
-      constructor; try assumption.
-      - apply (TInv_struct [] noE s (s <| status := 1 |>)); [apply same_struct_nodes; reflexivity|reflexivity|exact Iheap|] .
-        exact T.
-      - apply (ids_ok_ext s s1); auto; try reflexivity.
-      - apply (binds_wf_ext s s1); auto; try reflexivity.
-      - apply (kinds_ok_ext s s1); auto; try reflexivity.
-      - apply (scoping_ok_ext s s1); auto; try reflexivity.
-      - split; try reflexivity; try assumption.
-        + repeat split; assumption.
-        + intros v. cbn. rewrite q_setDuring0, q_setRemoved0. intros [Hx|Hx]; inversion Hx.
-      - destruct Ishape. split; assumption.
-      - apply (stamps_ok_ext s s1); auto; try reflexivity.
-      - intros n. cbn. rewrite elem_of_cons. rewrite <- L3. split; [auto|]. intros [?|?]; [discriminate|assumption]. }
-    admit.
-  Admitted.
 End pass2.
